@@ -46,6 +46,10 @@ u16 sembits(Rng& g, const ApbpDir& m, int bias) {
     }
 }
 u16 fresh_value(Rng& g, const ApbpDir::Chan& ch) {
+    // mostly a value different from the one in the channel (so a stale read is distinguishable); one time in five the
+    // very same word again: an overwrite with an identical value is still a write (flag set, interrupt raised)
+    if (ch.written && g.chance(1, 5))
+        return ch.data;
     u16 v;
     do
         v = g.edge16();
